@@ -19,6 +19,8 @@ const conf = `seata:
       lock:
         retry-interval: 5ms
         retry-times: 3
+    xa:
+      xa_two_phase_hold_time: 2562047h
     tm:
       commit-retry-count: 3
       rollback-retry-count: 3
